@@ -365,6 +365,11 @@ func toSMTPErr(err error) *smtp.SMTPError {
 		log.Printf("plain SMTP error returned, this is deprecated")
 		res.Code = smtpErr.Code
 		res.EnhancedCode = smtpErr.EnhancedCode
+		if res.EnhancedCode[0] <= 0 {
+			// The reply had no enhanced code. Status is mandatory in DSN,
+			// without one the report would not be generated at all.
+			res.EnhancedCode = smtp.EnhancedCode{smtpErr.Code / 100, 0, 0}
+		}
 		res.Message = smtpErr.Message
 	}
 
